@@ -178,6 +178,16 @@ func ViolatingFrame(t *simrt.Tape, kind string, open, deflate, peerIsClient bool
 		f := data
 		ops := []byte{3, 4, 5, 6, 7, 0xB, 0xC, 0xD, 0xE, 0xF}
 		f.Opcode = ops[t.Draw(len(ops))]
+		f.Fin = true
+		// payloads a control-frame handler could take for a Close or Ping payload
+		switch t.Draw(4) {
+		case 1:
+			f.Payload = nil
+		case 2:
+			f.Payload = wsref.ClosePayload([]int{1000, 1001, 3000}[t.Draw(3)], "bye")
+		case 3:
+			f.Payload = []byte("1")
+		}
 		return SFrame{F: f, Note: fmt.Sprintf("%s-%x", kind, f.Opcode)}
 	case "wrong-mask":
 		f := pick()
